@@ -154,19 +154,35 @@ fn with_state<T>(f: impl FnOnce(&mut State) -> T) -> T {
 
 pub struct Tracker;
 
+/// Every allocation is followed by a red zone, so a small heap overflow is
+/// reported when the block is freed instead of corrupting the heap.
+const REDZONE: usize = 32;
+const RZ_BYTE: u8 = 0xFA;
+
+fn padded(layout: Layout) -> Layout {
+    // SAFETY: size + REDZONE cannot overflow isize for any real allocation.
+    unsafe { Layout::from_size_align_unchecked(layout.size() + REDZONE, layout.align()) }
+}
+
 unsafe impl GlobalAlloc for Tracker {
     unsafe fn alloc(&self, layout: Layout) -> *mut u8 {
-        let ptr = unsafe { System.alloc(layout) };
-        if !ptr.is_null() && !in_tracker() {
-            record_alloc(ptr as usize, layout);
+        let ptr = unsafe { System.alloc(padded(layout)) };
+        if !ptr.is_null() {
+            unsafe { std::ptr::write_bytes(ptr.add(layout.size()), RZ_BYTE, REDZONE) };
+            if !in_tracker() {
+                record_alloc(ptr as usize, layout);
+            }
         }
         ptr
     }
 
     unsafe fn alloc_zeroed(&self, layout: Layout) -> *mut u8 {
-        let ptr = unsafe { System.alloc_zeroed(layout) };
-        if !ptr.is_null() && !in_tracker() {
-            record_alloc(ptr as usize, layout);
+        let ptr = unsafe { System.alloc_zeroed(padded(layout)) };
+        if !ptr.is_null() {
+            unsafe { std::ptr::write_bytes(ptr.add(layout.size()), RZ_BYTE, REDZONE) };
+            if !in_tracker() {
+                record_alloc(ptr as usize, layout);
+            }
         }
         ptr
     }
@@ -175,11 +191,11 @@ unsafe impl GlobalAlloc for Tracker {
         if !in_tracker() {
             let really_free = record_dealloc(ptr as usize, layout);
             if really_free {
-                unsafe { System.dealloc(ptr, layout) };
+                unsafe { System.dealloc(ptr, padded(layout)) };
             }
         } else {
             // Bookkeeping memory of the tracker itself, never recorded.
-            unsafe { System.dealloc(ptr, layout) };
+            unsafe { System.dealloc(ptr, padded(layout)) };
         }
     }
 
@@ -237,6 +253,17 @@ fn record_dealloc(addr: usize, layout: Layout) -> bool {
         }
         match s.blocks.get_mut(&addr) {
             Some(block) if block.state == BlockState::Live => {
+                let rz = unsafe { std::slice::from_raw_parts((addr + layout.size()) as *const u8, REDZONE) };
+                if let Some(pos) = rz.iter().position(|b| *b != RZ_BYTE) {
+                    s.violations.push(AllocViolation {
+                        class: "mem.heap-overflow",
+                        detail: format!(
+                            "{} byte(s) past the end of an allocation of {} bytes were overwritten (first at +{pos})",
+                            rz.iter().filter(|b| **b != RZ_BYTE).count(),
+                            layout.size()
+                        ),
+                    });
+                }
                 if block.pins > 0 {
                     let reason = s.pin_reasons.get(&addr).cloned().unwrap_or_default();
                     s.violations.push(AllocViolation {
@@ -304,7 +331,7 @@ pub fn end_run() {
         std::mem::take(&mut s.quarantine)
     });
     for (addr, layout) in &quarantine {
-        unsafe { System.dealloc(*addr as *mut u8, *layout) };
+        unsafe { System.dealloc(*addr as *mut u8, padded(*layout)) };
     }
 }
 
